@@ -5,7 +5,9 @@ Tie: correspondence, two parts.
                 $VERIF_REPO/runtime/cpp with ASan+UBSan) vs the Lean model (`model_c06`) and an
                 independent reference (harness/corr/c06_int.py).
   TXT           generated modules -> real header -> WriteToString / UpdateFromText on Ok buffers,
-                judged by the property statement itself (harness/corr/c06_txt.py).
+                judged by the property statement itself (harness/corr/c06_txt.py); the
+                allow_partial_output clause on truncated buffers and on full-size buffers whose view
+                is not Ok by content (invalid BCD digit, failing [requires]).
 """
 import json
 
@@ -60,7 +62,9 @@ def run(tier):
     chk = common.Check(PROP, tier, exes=["model_c06"])
     chk.cov["rule"] = ("INTCODEC: distinct (type, value, base, grouping) written and read back, distinct "
                        "(type, text) decoded, distinct texts tokenized; TXT: distinct (module, struct, Ok buffer, "
-                       "option set) whose view was Ok and went through WriteToString + UpdateFromText")
+                       "option set) whose view was Ok and went through WriteToString + UpdateFromText; distinct "
+                       "(module, struct, full-size buffer whose view is not Ok by content, option set) written with "
+                       "allow_partial_output and compared with the exact expected text tree")
     import time
     t0 = time.time()
     model_ok = common.proof_gate(chk, search)
@@ -116,6 +120,16 @@ def replay(path):
     print("kind:", rec.get("kind"), " part:", rec.get("part"))
     print("expected:", rec.get("expected"))
     print("recorded observation:", rec.get("observed"))
+    if rec.get("not_ok_by_content"):
+        # a full-size buffer whose view is not Ok by content (c06_gen.poison_buffer): the buffer
+        # below is the poisoned one; `ok_buffer` is the Ok buffer it was derived from
+        print("view not Ok by content:")
+        for x in rec["not_ok_by_content"]:
+            print("   leaf %s (%s%s): %s" % (x.get("leaf"), x.get("kind"),
+                                             ", in " + "/".join(x["context"]) if x.get("context") else "", x.get("how")))
+        print("   derived from the Ok buffer", rec.get("ok_buffer"))
+    if rec.get("allow_partial_output") and rec.get("text") is not None:
+        print("recorded text (allow_partial_output):\n" + str(rec.get("text")))
     if rec.get("part") in ("INTCODEC", "TOK") or "op" in rec and "emb" not in rec:
         binary, log = c06_int.build()
         if binary is None:
